@@ -348,6 +348,9 @@ func (fr *Frame) dispatchCall2(instr ssa.Instruction, cc *ssa.CallCommon, pos to
 		}
 	}
 	if fn == nil {
+		if ci, _ := fr.rangeFuncYield(cc); ci != nil {
+			return fr.rangeFuncCall(cc, ci, pos)
+		}
 		if c := fr.C; c != nil && c.Callees != nil {
 			for _, n := range names {
 				if cs, ok := c.Callees[n]; ok {
@@ -458,6 +461,7 @@ func (fr *Frame) havocCall(cc *ssa.CallCommon, args []Val, heap bool, pos token.
 
 // havocExternal applies the A-FRAME effect of a library call without specification.
 func (fr *Frame) havocExternal(cc *ssa.CallCommon, args []Val) {
+	defer fr.keepOwnBoxes()()
 	h := fr.R.Heap
 	// (a) every field component of types declared outside the module
 	for _, n := range h.Names() {
@@ -1049,6 +1053,14 @@ func (fr *Frame) havocTarget(ctx *EvalCtx, e Expr) {
 			el := v.Ty.(*types.Pointer).Elem()
 			l := fr.locOf(Val{T: v.T, Loc: v.Loc}, el)
 			fr.store(l, fr.freshTyped("mod."+e.Name, el))
+			return
+		}
+	}
+	if ec, ok := e.(ECall); ok && ec.Fun == "maps" {
+		if comps, ok := fr.targetComps(e, map[string]types.Type{}, ctx.pkgPath); ok {
+			for _, comp := range comps {
+				h.Havoc(fr.st, comp)
+			}
 			return
 		}
 	}
